@@ -61,6 +61,17 @@ func c09Case(c *mon.Ctx, aText, bText string, prof gen.Profile) {
 	diffFeatures(c, hs)
 	txt, err := mk().RenderPatch()
 	c.Input("json_patch", txt)
+	if c.Index%4 == 1 {
+		// the chain Render -> ReadDiffString -> RenderPatch: the diff a user saved as text translates like the one in memory
+		if rd, rerr := jd.ReadDiffString(mk().Render()); rerr == nil {
+			txt2, err2 := rd.RenderPatch()
+			c.Feature("reread_diff_rendered")
+			if (err == nil) != (err2 == nil) || (err == nil && txt2 != txt) {
+				c.Violation("RenderPatch of the re-read native diff differs from RenderPatch of the diff in memory", map[string]any{"in_memory": fmt.Sprint(txt, err), "reread": fmt.Sprint(txt2, err2)})
+				return
+			}
+		}
+	}
 	extra := map[string]any{"native_diff": ref.HunksString(hs)}
 	if unexpressible(hs) {
 		c.Feature("expect_refusal")
